@@ -1,7 +1,9 @@
 #!/bin/sh
 # MANIFEST.setup_cmd: build everything from files on disk, offline.
 set -e
-cd /verif
+cd "$(dirname "$0")"
+V=$(pwd)
+export CARGO_TARGET_DIR=$V/.build/target
 export CARGO_NET_OFFLINE=true
 mkdir -p .build evidence
 [ -f harness/Cargo.lock ] || cp /repo/Cargo.lock harness/Cargo.lock
